@@ -223,6 +223,25 @@ def checkpoint_case(rng):
         return {"checkpoint": True, "body": body, "x": x, "ok": False, "error": repr(ex)}
 
 
+def checkpoint_kw_case(rng):
+    """a traced value handed to a checkpointed function BY KEYWORD: same value and derivative as the plain function, or a
+    loud refusal"""
+    f = lambda a, s=1.0: a * s * s + a  # noqa: E731
+    cf = checkpoint(f)
+    x = float(rng.choice([-2, -1, 2, 3]))
+    site = {"oracle": "checkpoint", "configuration": "traced value passed by keyword"}
+    try:
+        want = float(grad(lambda t: f(t, s=t))(x))
+        try:
+            got = grad(lambda t: cf(t, s=t))(x)
+        except Exception:
+            return {"checkpoint": True, "x": x, "ok": True, "site": site, "raised": True}
+        ok = (not isbox(got)) and float(got) == want
+        return {"checkpoint": True, "x": x, "ok": bool(ok), "site": site, "got": repr(got), "want": want}
+    except Exception as ex:
+        return {"checkpoint": True, "x": x, "ok": False, "site": site, "error": repr(ex)}
+
+
 def checkpoint_case_nary(rng):
     """checkpoint of a function of 2..3 positional arguments (+ a keyword): value, every first partial, every
     (mixed) second partial by position, by closure nesting and along a curve t -> cf(t, t*t)"""
@@ -277,7 +296,7 @@ def main():
         out["jvp"].append(jvp_case(rng))
     for i in range(cfg["n_oracle"]):
         out["oracle"].append(two_level_case(rng))
-        for c in (checkpoint_case(rng), checkpoint_case_nary(rng)):
+        for c in (checkpoint_case(rng), checkpoint_case_nary(rng)) + ((checkpoint_kw_case(rng),) if i == 0 else ()):
             if c:
                 out["oracle"].append(c)
     print(json.dumps(out))
